@@ -1,4 +1,5 @@
 import CalmVerif.Props.C02
+import CalmVerif.Props.C01typed2
 open CalmVerif.Props.C02
 
 #print axioms minify_ignores_positions
@@ -49,3 +50,23 @@ open CalmVerif.Props.C02
 #check @sep_exclusions_witnessed
 #print axioms minify_relexes_partial
 #check @minify_relexes_partial
+#print axioms CalmVerif.Props.C01typed2.wfVal_canon_invariant
+#check @CalmVerif.Props.C01typed2.wfVal_canon_invariant
+#print axioms CalmVerif.Props.C01typed2.valAll_canon_invariant
+#check @CalmVerif.Props.C01typed2.valAll_canon_invariant
+#print axioms CalmVerif.Props.C01typed2.parsed_canon_well_typed'
+#check @CalmVerif.Props.C01typed2.parsed_canon_well_typed'
+#print axioms CalmVerif.Props.C01typed2.parsed_pretty_stream_typed'
+#check @CalmVerif.Props.C01typed2.parsed_pretty_stream_typed'
+#print axioms CalmVerif.Props.C01typed2.parsed_minify0_stream_typed'
+#check @CalmVerif.Props.C01typed2.parsed_minify0_stream_typed'
+#print axioms CalmVerif.Props.C01typed2.parsed_minify1_stream_typed'
+#check @CalmVerif.Props.C01typed2.parsed_minify1_stream_typed'
+#print axioms CalmVerif.Props.C01typed2.parsed_pretty_relexes_partial'
+#check @CalmVerif.Props.C01typed2.parsed_pretty_relexes_partial'
+#print axioms CalmVerif.Props.C01typed2.parsed_minify_relexes_partial'
+#check @CalmVerif.Props.C01typed2.parsed_minify_relexes_partial'
+#print axioms CalmVerif.Props.C01typed2.parsed_pretty_lines_indented''
+#check @CalmVerif.Props.C01typed2.parsed_pretty_lines_indented''
+#print axioms CalmVerif.Props.C01typed2.parsed_pretty_ends_with_one_newline''
+#check @CalmVerif.Props.C01typed2.parsed_pretty_ends_with_one_newline''
